@@ -85,7 +85,7 @@ package index
 //@ axiom nlFromStep: forall c []byte, a int :: 0 <= a && a < len(c) ==> nlFrom(c, a) == nlFrom(c, a+1) + ite(c[a] == '\n', 1, 0)
 
 //@ pure func okSym(cm zoekt.ChunkMatch) bool = cm.SymbolInfo != nil ==> len(cm.SymbolInfo) == len(cm.Ranges)
-//@ pure func okChunk(cm zoekt.ChunkMatch) bool = (forall a, b int :: 0 <= a && a <= b && b < len(cm.Ranges) ==> 0 <= cm.Ranges[b].End.LineNumber - cm.Ranges[a].End.LineNumber && cm.Ranges[b].End.LineNumber - cm.Ranges[a].End.LineNumber <= nlFrom(cm.Content, 0))
+//@ pure func okChunk(cm zoekt.ChunkMatch) bool = (forall a, b int :: 0 <= a && a <= b && b < len(cm.Ranges) ==> 0 <= cm.Ranges[b].End.LineNumber - cm.Ranges[a].End.LineNumber && cm.Ranges[b].End.LineNumber - cm.Ranges[a].End.LineNumber + ite(len(cm.Content) > 0 && cm.Content[len(cm.Content)-1] == '\n', 1, 0) <= nlFrom(cm.Content, 0))
 
 //@ func index.limitChunkMatches
 //@   requires file != nil && limit > 0
@@ -100,8 +100,10 @@ package index
 //@     decreases len(F) - $i
 //@     assigns file.ChunkMatches, file.ChunkMatches[*].Ranges, file.ChunkMatches[*].SymbolInfo, file.ChunkMatches[*].Content
 //@   loop 2:
-//@     invariant -1 <= b && b < len(cm.Content)
-//@     invariant n > 0 && n + nlFrom(cm.Content, b+1) == uint32(cm.Ranges[len(cm.Ranges)-1].End.LineNumber - cm.Ranges[limit-1].End.LineNumber)
+//@     invariant -1 <= b && b <= last && last < len(cm.Content) && (keep == 0 || keep == 1) && last == len(cm.Content) - 1 - keep
+//@     invariant keep == 1 ==> cm.Content[len(cm.Content)-1] == '\n'
+//@     invariant keep == 0 ==> len(cm.Content) == 0 || cm.Content[len(cm.Content)-1] != '\n'
+//@     invariant n > 0 && n + nlFrom(cm.Content, b+1) == uint32(cm.Ranges[len(cm.Ranges)-1].End.LineNumber - cm.Ranges[limit-1].End.LineNumber) + keep
 //@     decreases b + 1
 //@   ensures result >= 0
 //@   ensures result > 0 ==> file.ChunkMatches == F && (forall k int :: 0 <= k && k < len(F) ==> F[k] == old(F[k]))
@@ -112,7 +114,12 @@ package index
 //@   ensures result == 0 ==> F[len(file.ChunkMatches)-1].Ranges == old(F[now(len(file.ChunkMatches))-1].Ranges)[:len(F[len(file.ChunkMatches)-1].Ranges)]
 //@   ensures result == 0 ==> (F[len(file.ChunkMatches)-1].SymbolInfo != nil ==> len(F[len(file.ChunkMatches)-1].SymbolInfo) == len(F[len(file.ChunkMatches)-1].Ranges))
 //@   ensures result == 0 ==> len(F[len(file.ChunkMatches)-1].Content) <= len(old(F[now(len(file.ChunkMatches))-1].Content)) && base(F[len(file.ChunkMatches)-1].Content) == base(old(F[now(len(file.ChunkMatches))-1].Content)) && offset(F[len(file.ChunkMatches)-1].Content) == offset(old(F[now(len(file.ChunkMatches))-1].Content))
-//@   ensures result == 0 ==> (len(F[len(file.ChunkMatches)-1].Content) < len(old(F[now(len(file.ChunkMatches))-1].Content)) ==> old(F[now(len(file.ChunkMatches))-1].Content[now(len(F[len(file.ChunkMatches)-1].Content))]) == '\n')
+// (Content without a final newline - the last line of a file that has none -
+// is cut just before the newline that ends its new last line.)
+//@   ensures result == 0 ==> (len(F[len(file.ChunkMatches)-1].Content) < len(old(F[now(len(file.ChunkMatches))-1].Content)) && old(F[now(len(file.ChunkMatches))-1].Content[len(F[now(len(file.ChunkMatches))-1].Content)-1]) != '\n' ==> old(F[now(len(file.ChunkMatches))-1].Content[now(len(F[len(file.ChunkMatches)-1].Content))]) == '\n')
+// C03 / C22: a truncated chunk still consists of whole lines - Content that
+// ended with the newline of its last line still does.
+//@   ensures result == 0 ==> (len(F[len(file.ChunkMatches)-1].Content) < len(old(F[now(len(file.ChunkMatches))-1].Content)) && old(F[now(len(file.ChunkMatches))-1].Content[len(F[now(len(file.ChunkMatches))-1].Content)-1]) == '\n' ==> len(F[len(file.ChunkMatches)-1].Content) > 0 && F[len(file.ChunkMatches)-1].Content[len(F[len(file.ChunkMatches)-1].Content)-1] == '\n')
 //@   ensures result <= limit
 //@   assigns file.ChunkMatches, file.ChunkMatches[*].Ranges, file.ChunkMatches[*].SymbolInfo, file.ChunkMatches[*].Content
 
